@@ -50,6 +50,9 @@ def chkResolvedDiffer : Bool :=
   (acceptedBytes false).all fun a => (acceptedBytes false).all fun b =>
     (!(isACGT a && isACGT b)) || (encDiffer (enc false a) (enc false b) == !(enc false a == enc false b))
 
+/-- the code of the soft gap is reserved for '-' -/
+def chkGapCode : Bool := (acceptedBytes false).all fun b => (enc false b == 244) == (b == 45)
+
 /-! witness search (used by the driver when an obligation no longer checks) -/
 def encWitnesses : List String :=
   let modes := [false, true]
@@ -69,6 +72,7 @@ def encWitnesses : List String :=
       | none => true).map fun b => s!"FAIL score byte={b} score={scoreOf (enc false b)}") ++
   (if chkTransitions then [] else ["FAIL transitions (a|b)==200 / ==56 no longer mean {A,G} / {C,T}"]) ++
   (if chkResolvedDiffer then [] else ["FAIL resolved-differ: two resolved bases test as different iff their codes differ"]) ++
+  (if chkGapCode then [] else ["FAIL gap-code: 244 no longer encodes exactly '-'"]) ++
   (if chkSame then [] else ["FAIL same-code: equal codes on resolved bases no longer mean equal bases"])
 
 end Gofasta.Spec
